@@ -41,6 +41,7 @@ Definition prim_feat (p : prim) : string :=
   | PTwice _ _ => "category-default"
   | PScale DA _ => "category-default"
   | PScale DB _ => "default-overridden"
+  | PANew _ | PALen _ | PAGet _ => "array-op"
   end.
 
 (* (features, literal classes, node count) *)
@@ -60,6 +61,14 @@ Fixpoint fe_e (e : expr) : list string * list string * nat :=
   | ESeq ss e' => add "value-seq" (join (fe_e e' :: map fe_s ss))
   | EMac _ e' => add "macro-call" (join [fe_e e'])
   | EListLit _ es => add (match es with [] => "list-empty" | _ => "list-literal" end) (join (map fe_e es))
+  | ERec _ es => add "record" (join (map fe_e es))
+  | EArrLit _ es => add "array-literal" (join (map fe_e es))
+  | EField _ e' => add "record-field" (join [fe_e e'])
+  | EClo _ _ _ es => add "closure" (join (map fe_e es))
+  | EApp fn es => add "closure-call" (join (fe_e fn :: map fe_e es))
+  | EUni _ _ e' => add "union" (join [fe_e e'])
+  | ECase _ e' => add "union-case" (join [fe_e e'])
+  | EUGet _ e' => add "union-field" (join [fe_e e'])
   end
 with fe_s (s : stmt) : list string * list string * nat :=
   let join (l : list (list string * list string * nat)) :=
@@ -69,6 +78,8 @@ with fe_s (s : stmt) : list string * list string * nat :=
   match s with
   | SAssG _ e => add "assign-global" (join [fe_e e])
   | SAssL _ e => add "assign-local" (join [fe_e e])
+  | SSetG _ _ e | SSetL _ _ e => add "record-update" (join [fe_e e])
+  | SSetIG _ j e | SSetIL _ j e => add "array-update" (join [fe_e j; fe_e e])
   | SPrint es => add "print" (join (map fe_e es))
   | SIf c a b => add "if-stmt" (join (fe_e c :: map fe_s a ++ map fe_s b))
   | SWhile c body => add "while" (join (fe_e c :: map fe_s body))
@@ -121,11 +132,15 @@ Fixpoint calls_e (n0 : nat) (e : expr) : bool :=
   | EAnd a b | EOr a b => (calls_e n0 a || calls_e n0 b)%bool
   | ESeq ss e' => (existsb (calls_s n0) ss || calls_e n0 e')%bool
   | EMac _ e' => calls_e n0 e'
-  | EListLit _ es => existsb (calls_e n0) es
+  | EListLit _ es | ERec _ es | EArrLit _ es => existsb (calls_e n0) es
+  | EClo n _ _ es => (Nat.eqb n n0 || existsb (calls_e n0) es)%bool
+  | EApp fn es => (calls_e n0 fn || existsb (calls_e n0) es)%bool
+  | EField _ e' | EUni _ _ e' | ECase _ e' | EUGet _ e' => calls_e n0 e'
   end
 with calls_s (n0 : nat) (s : stmt) : bool :=
   match s with
-  | SAssG _ e | SAssL _ e | SReturn e => calls_e n0 e
+  | SAssG _ e | SAssL _ e | SReturn e | SSetG _ _ e | SSetL _ _ e => calls_e n0 e
+  | SSetIG _ j e | SSetIL _ j e => (calls_e n0 j || calls_e n0 e)%bool
   | SPrint es => existsb (calls_e n0) es
   | SCall n es => (Nat.eqb n n0 || existsb (calls_e n0) es)%bool
   | SIf c a b => (calls_e n0 c || existsb (calls_s n0) a || existsb (calls_s n0) b)%bool
